@@ -113,6 +113,9 @@ class CentralizedTaskingEngine(TaskingEngine):
                 )
             self._reward_executor.join()
 
+            self.calculateRewards()
+            # [NOTE]: task priorities scale rows of the freshly calculated reward matrix, so they must be
+            #   handled after `calculateRewards()` (which overwrites the matrix) and before the decision.
             handleRelevantEvents(
                 self,
                 self._database,
@@ -122,7 +125,6 @@ class CentralizedTaskingEngine(TaskingEngine):
                 self.logger,
                 scope_instance_id=self.unique_id,
             )
-            self.calculateRewards()
             self.generateTasking()
 
             self.logger.debug("Executing tasking strategy...")
